@@ -76,21 +76,6 @@ def classModel (v10 xp : Bool) (c : CClass) (src : List Ch) : Option CC :=
   | 91 :: _ => parseClassText implT v10 xp src
   | _ => (c.toClassEM).map evalClass
 
-/-- like `Rx.toRE` but every class goes through the scanner + `CharacterClass` model;
-`none` = the model raises `RegexError` -/
-def toREM (v10 xp : Bool) (fl : Flags) : Rx → Option RE
-  | .eps => some .eps
-  | .chr c => some (.cls (· == c))
-  | .dot => some (if fl.dotAll then anyCh else .cls fun c => c != 10 && c != 13)
-  | .cls c src => (classModel v10 xp c src).map fun cc => .cls fun x => decide (x < maxCP1) && cc.contains x
-  | .bol => some (.anchor (if fl.multi then .bolM else .bol))
-  | .eol => some (.anchor (if fl.multi then .eolM else .eol))
-  | .group _ r => toREM v10 xp fl r
-  | .cat a b => do let x ← toREM v10 xp fl a; let y ← toREM v10 xp fl b; pure (.cat x y)
-  | .alt a b => do let x ← toREM v10 xp fl a; let y ← toREM v10 xp fl b; pure (.alt x y)
-  | .quant r lo hi _ => (toREM v10 xp fl r).map fun x => rep x lo hi
-  | .backref _ => some .empty
-
 /-- some item names an unknown `Is` block (known finding F12u when the class is parsed for XSD 1.0) -/
 def CClass.unknownBlock : CClass → Bool
   | .mk _ items sub =>
@@ -98,12 +83,6 @@ def CClass.unknownBlock : CClass → Bool
     (match sub with | none => false | some s => s.unknownBlock)
 
 def classF12 (c : CClass) : Bool := match c.toClassEM with | some e => e.f12 | none => false
-
-def Rx.anyClass (p : CClass → Bool) : Rx → Bool
-  | .cls c _ => p c
-  | .group _ r | .quant r _ _ _ => r.anyClass p
-  | .cat a b | .alt a b => a.anyClass p || b.anyClass p
-  | _ => false
 
 /-- F12s trigger, on the pattern text: inside a class expression (bracket depth >= 1) there is
 a backslash followed by `\`, `$`, a character that is no XSD escape letter or a malformed
@@ -156,6 +135,63 @@ def answerCls (fs : List (String × String)) : String :=
 
 def flagsOf (f : String) : Flags := { dotAll := f.contains 's', multi := f.contains 'm' }
 
+/-- executable reading of the fragments under Python's `re` (the `PySem` the theorem
+`translate_eq_spec_partial` assumes, instantiated with the live tables); `\s \S \w \W` handed to
+Python are approximated by the XSD tables (known finding F12w); a back-reference has no denotation -/
+def pyDen (_fl : Flags) : PyAtom → Option RE
+  | .chr c => some (.cls (· == c))
+  | .esc e =>
+    if e == 110 then some (.cls (· == 10)) else if e == 114 then some (.cls (· == 13)) else if e == 116 then some (.cls (· == 9))
+    else if e == 100 then some (.cls fun x => (implEsc .d).mem x)
+    else if e == 68 then some (.cls fun x => decide (x < maxCP1) && !(implEsc .d).mem x)
+    else if e == 115 then some (.cls fun x => (implEsc .s).mem x)
+    else if e == 83 then some (.cls fun x => decide (x < maxCP1) && !(implEsc .s).mem x)
+    else if e == 119 then some (.cls fun x => (implEsc .w).mem x)
+    else if e == 87 then some (.cls fun x => decide (x < maxCP1) && !(implEsc .w).mem x)
+    else some (.cls (· == e))
+  | .dotAll => some anyCh
+  | .dotNoNL => some (.cls fun c => c != 10 && c != 13)
+  | .bol => some (.anchor .bol)
+  | .bolM => some (.anchor .bolM)
+  | .eol => some (.anchor .eol)
+  | .eolM => some (.anchor .eolM)
+  | .litAnchor c => some (.cls (· == c))
+  | .cls cc => some (.cls fun x => decide (x < maxCP1) && cc.strDenote x)
+  | .nameEsc start neg =>
+    let t := if start then implEsc .i else implEsc .c
+    some (.cls fun x => decide (x < maxCP1) && (if neg then !t.mem x else t.mem x))
+  | .prop st neg => some (.cls fun x => decide (x < maxCP1) && (if neg then !st.mem x else st.mem x))
+  | .propAll => some (.cls fun x => decide (x < maxCP1 - 1))
+  | .backref _ => none
+  | .bslash => none
+  | .bracketDigit d => some (.cls (· == d + 48))
+
+def tokDen {α : Type} (f : α → Option RE) : List (Tok α) → Option (List (Tok RE))
+  | [] => some []
+  | .atom a :: ts => do let r ← f a; let rest ← tokDen f ts; pure (.atom r :: rest)
+  | .lpar c :: ts => (tokDen f ts).map (.lpar c :: ·)
+  | .rpar :: ts => (tokDen f ts).map (.rpar :: ·)
+  | .bar :: ts => (tokDen f ts).map (.bar :: ·)
+  | .quant lo hi l :: ts => (tokDen f ts).map (.quant lo hi l :: ·)
+
+/-- model reading of a spec atom: bracket expressions through the transcribed class scanner -/
+def atomModel (v10 xp : Bool) (fl : Flags) : XAtom → Option RE
+  | .cls c src => (classModel v10 xp c src).map fun cc => .cls fun x => decide (x < maxCP1) && cc.contains x
+  | a => some (XAtom.den specT fl a)
+
+def anyClassTok (p : CClass → Bool) (toks : List (Tok XAtom)) : Bool :=
+  toks.any fun t => match classOfTok t with | some c => p c | none => false
+
+/-- the scanner's own structural checks, on the lexemes: a `)` needs an open group, all groups are
+closed at the end, no quantifier at the very start or directly after a quantifier (the decidable,
+structural part of `RunOK` in `translate_eq_spec_partial`; every valid pattern has it) -/
+def structOK : Nat → Bool → List (Tok XAtom) → Bool
+  | d, _, [] => d == 0
+  | d, _, .rpar :: r => decide (d > 0) && structOK (d - 1) false r
+  | d, _, .lpar _ :: r => structOK (d + 1) false r
+  | d, first, .quant _ _ _ :: r => !first && (match r with | .quant _ _ _ :: _ => false | _ => true) && structOK d false r
+  | d, _, _ :: r => structOK d false r
+
 def answerPat (fs : List (String × String)) : String :=
   let xp := field fs "x" == "1"
   let f := field fs "f"
@@ -185,35 +221,51 @@ def answerPat (fs : List (String × String)) : String :=
     | none => "bad-subj"
     | some subjs =>
       let o : Opts := { xpath := xp }
-      let parsed : Option (Rx × Bool) :=
-        if f.contains 'q' then some (literalRx src0, false)
-        else parseRx o (if f.contains 'x' then stripX src0 0 else src0)
-      match parsed with
-      | none => "valid=0 unclear=0 f12=0 scan=" ++ (if scanTrigger src0 then "1" else "0") ++ " bref=0 props=1 ublk=0 model=- spec=-"
-      | some (r, unclear) =>
-        let props := r.propsKnown specT
-        let bref := r.hasBackref
-        let f12 := r.anyClass classF12
-        let scan := !f.contains 'q' && scanTrigger src0
-        let fl := flagsOf f
-        let b (x : Bool) := if x then "1" else "0"
-        let ublk := r.anyClass CClass.unknownBlock
-        let hdr := s!"valid={b props} unclear={b unclear} f12={b f12} scan={b scan} bref={b bref} props={b props} ublk={b ublk}"
-        if !props || bref then hdr ++ " model=- spec=-" else
-        let rs := r.toRE specT fl
-        let v10 := field fs "v" == "10"
-        let run (re : RE) (s : Option Ch × List Ch × Option Ch) : Bool :=
-          if ctxMode then derivMatch re s.1 s.2.1 s.2.2
-          else if full then fullB re s.2.1 else searchB re s.2.1
-        let model := match toREM v10 xp fl r with
-          | some rm => bits (subjs.map (run rm))
-          | none => "ERR"
-        if lmsMode then
-          let one (s : Option Ch × List Ch × Option Ch) : String :=
-            match leftmostStart rs s.2.1 (s.1.getD 0) with | some i => toString i | none => "-"
-          hdr ++ " lms=" ++ ";".intercalate (subjs.map one)
-        else
-        hdr ++ " model=" ++ model ++ " spec=" ++ bits (subjs.map (run rs))
+      let v10 := field fs "v" == "10"
+      let fl := flagsOf f
+      let b (x : Bool) := if x then "1" else "0"
+      let run (re : RE) (s : Option Ch × List Ch × Option Ch) : Bool :=
+        if ctxMode then derivMatch re s.1 s.2.1 s.2.2
+        else if full then fullB re s.2.1 else searchB re s.2.1
+      -- the transcribed scanner (no model for flags x / q: whitespace stripping and re.escape are not transcribed)
+      let pym : String :=
+        if f.contains 'x' || f.contains 'q' then "-" else
+        let so : ScanOpts := { dotAll := fl.dotAll, multi := fl.multi, v10 := v10, backrefs := xp, lazy := xp, anchors := xp }
+        match translateM implT so src0 with
+        | none => "ERR"
+        | some ptoks =>
+          match tokDen (pyDen fl) ptoks with
+          | none => "NOD"
+          | some rtoks =>
+            match (parseT rtoks).map Ast.den with
+            | none => "SYN"
+            | some re => bits (subjs.map fun s => if ctxMode then derivMatch re s.1 s.2.1 s.2.2 else searchB re s.2.1)
+      let lexed : Option (List (Tok XAtom) × Bool) :=
+        if f.contains 'q' then some (src0.map fun c => .atom (.chr c), false)
+        else specLex o (if f.contains 'x' then stripX src0 0 else src0)
+      let scan := !f.contains 'q' && scanTrigger src0
+      match lexed with
+      | none => s!"valid=0 unclear=0 f12=0 scan={b scan} bref=0 props=1 ublk=0 sok=0 pym={pym} model=- spec=-"
+      | some (toks, unclear) =>
+        match specRE specT fl toks with
+        | none => s!"valid=0 unclear={b unclear} f12=0 scan={b scan} bref=0 props=1 ublk=0 sok={b (structOK 0 true toks)} pym={pym} model=- spec=-"
+        | some rs =>
+          let props := toks.all fun t => match classOfTok t with | some c => (c.toClassE specT).isSome | none => true
+          let bref := toks.any isBackrefTok
+          let valid := props && backrefsOk toks [] [] 1
+          let f12 := anyClassTok classF12 toks
+          let ublk := anyClassTok CClass.unknownBlock toks
+          let hdr := s!"valid={b valid} unclear={b unclear} f12={b f12} scan={b scan} bref={b bref} props={b props} ublk={b ublk} sok={b (structOK 0 true toks)} fe={b (forbiddenEscape xp none src0)} pym={pym}"
+          if !valid || bref then hdr ++ " model=- spec=-" else
+          if lmsMode then
+            let one (s : Option Ch × List Ch × Option Ch) : String :=
+              match leftmostStart rs s.2.1 (s.1.getD 0) with | some i => toString i | none => "-"
+            hdr ++ " lms=" ++ ";".intercalate (subjs.map one)
+          else
+          let model := match tokDen (atomModel v10 xp fl) toks with
+            | some rtoks => (match (parseT rtoks).map Ast.den with | some rm => bits (subjs.map (run rm)) | none => "ERR")
+            | none => "ERR"
+          hdr ++ " model=" ++ model ++ " spec=" ++ bits (subjs.map (run rs))
 
 def parseSpans (s : String) : Option (List Span) :=
   if s == "_" || s == "" then some [] else
